@@ -285,6 +285,27 @@ func (c *Ctx) callInner(in ssa.Instruction, cc *ssa.CallCommon, st *State, defer
 	if !con.AssignsSet && c.rulePure(id.short) {
 		// a callrule of the caller assumes these calls leave the modelled heap alone
 	} else if con.AssignsSet {
+		// `assigns elems(p)`: only the elements of the array behind the slice parameter p
+		// change (all other arrays of that element type are framed)
+		for _, a := range con.Assigns {
+			if !strings.HasPrefix(a, "elems(") || !strings.HasSuffix(a, ")") {
+				continue
+			}
+			pv := env.names[strings.TrimSuffix(strings.TrimPrefix(a, "elems("), ")")]
+			if pv == nil || pv.K != VSlice {
+				c.err = fmt.Errorf("contract of %s: %s does not name a slice parameter", id.short, a)
+				continue
+			}
+			et := pv.T.Underlying().(*types.Slice).Elem()
+			for _, l := range c.leavesOf(et) {
+				name := elemPrefix(et) + l.suffix
+				sort := "(Array Int (Array " + c.idxSort() + " " + l.sort + "))"
+				c.registerMap(name, sort)
+				m := c.lookup(st, name)
+				inner := c.fresh1("elems", "(Array "+c.idxSort()+" "+l.sort+")")
+				st.over[name] = c.define("hw", sort, "(store "+m+" "+pv.Arr+" "+inner+")")
+			}
+		}
 		for name := range c.heapSorts {
 			if !c.assignsAllowsCallee(con, name) {
 				continue
@@ -297,6 +318,7 @@ func (c *Ctx) callInner(in ssa.Instruction, cc *ssa.CallCommon, st *State, defer
 		c.havocHeap(st, c.isGhostMap)
 	}
 	res := c.freshVal(rt, "r_"+sanitize(id.short))
+	c.notePriorRefs(res)
 	env.st = st
 	env.old = pre
 	var results []*Val
@@ -378,7 +400,9 @@ func (c *Ctx) havocCall(id calleeID, args []*Val, rt types.Type, st *State, defe
 		c.drop("dynamic-call")
 	}
 	c.uncontracted[id.short]++
-	return c.freshVal(rt, "r_"+sanitize(id.short))
+	hv := c.freshVal(rt, "r_"+sanitize(id.short))
+	c.notePriorRefs(hv)
+	return hv
 }
 
 // calleeEnv binds parameter names of the callee to argument values.
